@@ -175,11 +175,22 @@ func (m *member) outstanding() int {
 // answer lets the simulated coordinator decide a parked call (journalled from the driver thread, so that the journal
 // order is the coordinator's decision order).
 func (x *multi) answer(p *gm.Pending) bool {
+	k := x.sim.Owner(p.Call)
+	if p.Call.Method == "offsetFetch" && x.rng.Intn(8) == 0 {
+		// fault on the generation's OffsetFetch: every error class; the attempt must fail, no generation
+		pool := []int{3, 5, 6, 7, 14, 15, 16, 22, 25, 26, 27, 29, 30}
+		var err error = netErr
+		if i := x.rng.Intn(len(pool) + 1); i < len(pool) {
+			err = kafka.Error(pool[i])
+		}
+		kafka.VerifGroupEmit("S.FetchErr", k)
+		x.mock.Answer(p, kafka.VerifCoordReply{Err: err})
+		return true
+	}
 	r, ready := x.sim.Answer(p)
 	if !ready {
 		return false
 	}
-	k := x.sim.Owner(p.Call)
 	switch p.Call.Method {
 	case "offsetCommit":
 		kafka.VerifGroupEmit("S.Commit", k, gm.Offsets(p.Call.Offsets), r.Err == nil)
